@@ -16,7 +16,7 @@ import (
 //
 //	dl:   "zero" (timeout 0) | "neg" (timeout -1) | "short" (30ms) | "long" (2s) | "pre" (context cancelled before) |
 //	      "post" (cancelled after 30ms) | "never" (background context)
-//	peer: "none" | "ready" (already waiting on the other side) | "later" (arrives after 30ms; 300ms when the deadline is short)
+//	peer: "none" | "ready" (already waiting on the other side) | "later" (arrives after 30ms; 1s when the deadline is short)
 func init() { comps["chans"] = driveChans }
 
 func drain(ch chan int) []int {
@@ -157,7 +157,7 @@ func driveChans(plan []M, out *Out, _ []string) {
 		isSend := op == "SendTimeout" || op == "SendContext"
 		lateDelay := 30 * time.Millisecond
 		if dl == "short" {
-			lateDelay = 300 * time.Millisecond
+			lateDelay = 1000 * time.Millisecond
 		}
 		peerGot := make(chan int, 4)
 		peerSent := make(chan bool, 1)
